@@ -221,7 +221,9 @@ func (i *Interpreter) getDirectorConfig(d *ast.DirectorDeclaration) (*value.Dire
 	return conf, nil
 }
 
-func (i *Interpreter) createDirectorRequest(ctx *context.Context, dc *value.DirectorConfig) (*http.Request, error) {
+// createDirectorRequest determines the backend from the director and creates the request for it.
+// The determined backend is also returned because the request is sent to it.
+func (i *Interpreter) createDirectorRequest(ctx *context.Context, dc *value.DirectorConfig) (*http.Request, *value.Backend, error) {
 	var backend *value.Backend
 	var err error
 
@@ -237,13 +239,17 @@ func (i *Interpreter) createDirectorRequest(ctx *context.Context, dc *value.Dire
 	case value.DIRECTORTYPE_CHASH:
 		backend, err = i.directorBackendConsistentHash(dc)
 	default:
-		return nil, exception.System("Unexpected director type '%s' provided", dc.Type)
+		return nil, nil, exception.System("Unexpected director type '%s' provided", dc.Type)
 	}
 
 	if err != nil {
-		return nil, errors.WithStack(err)
+		return nil, nil, errors.WithStack(err)
 	}
-	return i.createBackendRequest(ctx, backend)
+	req, err := i.createBackendRequest(ctx, backend)
+	if err != nil {
+		return nil, nil, errors.WithStack(err)
+	}
+	return req, backend, nil
 }
 
 func (i *Interpreter) canDetermineBackend(dc *value.DirectorConfig) error {
